@@ -273,7 +273,8 @@ def run(ctx):
     corr_r = ctx.corr("_round_order_quantity", "direct calls of the real function on random quantities (incl. the 10-digit Decimal rounding region) vs model `roundOrderQty`")
     corr_d = ctx.corr("int(Decimal(a)/Decimal(b)) at prec 10", "Python's decimal module vs model `decQuot10`")
     direct(ctx, corr_r, corr_d)
-    tstream.stream(ctx, ctx.n(60, 3000), None, [], extra_sync=lambda c, tr, ix: sizing_sync(c, corr_s, corr_f, tr, ix))
+    tstream.stream(ctx, ctx.n(80, 3000), None, [], extra_sync=lambda c, tr, ix: sizing_sync(c, corr_s, corr_f, tr, ix),
+                   market_opts=lambda k: {"opts": {"p_split": 0.8 if k % 2 else 0.3, "p_delist": 0.1}})
 
 
 def replay(ctx, data):
